@@ -37,7 +37,7 @@ pub fn build_file(f: &FileSpec) -> Result<BuiltFile, String> {
         FileSpec::Enc { seed, channels, bps, rate, bs, frames, seek } => {
             let full = *bps - 1;
             let chans = (0..*channels).map(|_| ChanRecipe { kind: Kind::Noise { amp: full }, wasted: 0, relation: 0 }).collect();
-            let pcm = Recipe { bps: *bps, rate: *rate, frames: *frames, seed: *seed, chans, seg: 0 }.expand();
+            let pcm = Recipe { bps: *bps, rate: *rate, frames: *frames, seed: *seed, chans, seg: 0, ms_mix: 0 }.expand();
             let mut o = EncOpts::small(*bs);
             o.seek = seek.clone();
             o.padding = Some(64);
